@@ -362,6 +362,9 @@ class BaseFullCache(BaseCache):
 
             return self._read_input_output_data(indices, input_data)
 
+        # An entry may hold a Jacobian only:
+        # it shall not hide another entry within the tolerance that holds outputs.
+        first_cache_entry = None
         for indices in self._hashes_to_indices.values():
             for index in indices:
                 cached_input_data = self._read_data(index, self.Group.INPUTS)
@@ -370,7 +373,15 @@ class BaseFullCache(BaseCache):
                 ):
                     output_data = self._read_data(index, self.Group.OUTPUTS)
                     jacobian_data = self._read_data(index, self.Group.JACOBIAN)
-                    return CacheEntry(input_data, output_data, jacobian_data)
+                    cache_entry = CacheEntry(input_data, output_data, jacobian_data)
+                    if output_data:
+                        return cache_entry
+
+                    if first_cache_entry is None:
+                        first_cache_entry = cache_entry
+
+        if first_cache_entry is not None:
+            return first_cache_entry
 
         return CacheEntry(input_data, {}, {})
 
